@@ -134,6 +134,9 @@ func (p *Packet) UnmarshalBinary(v []byte) error {
 	if h.Length > MaxBodyLength {
 		return fmt.Errorf("indicated size is too large to unmarshal; max allowed [%v] reported [%v]", MaxBodyLength, h.Length)
 	}
+	if int(h.Length) > len(v)-MaxHeaderLength {
+		return fmt.Errorf("indicated size [%v] is larger than the [%v] body bytes available", h.Length, len(v)-MaxHeaderLength)
+	}
 	p.Body = v[MaxHeaderLength : MaxHeaderLength+int(h.Length)]
 	return nil
 }
